@@ -193,7 +193,7 @@ def extract_specs(name, ctx):
         for x in A:
             specs.append({"id": f"name_{x}", "file": "crates/s3s/src/ops/generated.rs",
                           "item": f"impl super::Operation for {x}/fn name", "rewrites": "attr,ret", "wrap": f"impl {x} {{", "canary": "1"})
-            contracts[f"name_{x}"] = [{"kind": "sig", "text": f"    ensures\n        //# C01:name.{x}\n        ret@ == {lit(x)},"}]
+            contracts[f"name_{x}"] = [{"kind": "sig", "text": f"    ensures\n        //# C01,C07:name.{x}\n        ret@ == {lit(x)},"}]
         ctx["info"]["name_clauses"] = len(A)
         return specs, contracts
     raise KeyError(name)
